@@ -119,7 +119,7 @@ def gen_case(r, index, tier):
     elif r.chance(0.4):
         faults.append({"solve": r.weighted([(1, 5), (2, 3), (3, 1)]), "kind": r.choice(["killed", "error", "truncated", "missing", "enospc"]),
                        "byte": r.randint(1, 400)})
-    return {"engine": "c10", "die": die, "net": nl, "refine": refine, "threshold": r.choice([0.6, 0.7, 0.8, 0.9, 0.95, 0.99]),
+    return {"engine": "c10", "die": die, "net": nl, "refine": refine, "threshold": r.choice([0.6, 0.7, 0.8, 0.9, 0.95, 0.99, 1.0]),
             "alpha": r.weighted([(0.0, 1), (0.1, 3), (0.3, 3), (0.5, 3), (0.9, 2), (1.0, 1)]), "max_iter": r.randint(1, 3),
             "faults": faults, "area_total": tot,
             "free": free,
